@@ -66,7 +66,17 @@ func (s *stub) Terminate(source *prc.ProcessId) {
 const localNode = "127.0.0.1:7001"
 const otherNode = "10.9.9.9:7002"
 
-func addrName(a int) string { return fmt.Sprintf("/user/a%d", a) }
+// The model knows addresses as abstract, pairwise different identifiers; here they are strings that differ as little as
+// different logical addresses can: a trailing slash, a doubled slash (the registry must keep them apart in EVERY
+// operation — a key normalised in Register and GetProcess but not in Unregister makes two of them one)
+var addrNames = []string{"/user/a0", "/user/a0/", "/user//a0"}
+
+func addrName(a int) string {
+	if a < len(addrNames) {
+		return addrNames[a]
+	}
+	return fmt.Sprintf("/user/a%d", a)
+}
 
 func runImpl(c *Case) {
 	rec := &recorder{}
@@ -152,7 +162,7 @@ func apply(rc *prc.ResourceController, rec *recorder, refs []*prc.ProcessId, pro
 
 // ---- property monitor: a plain map address -> process (independent of the Coq model)
 func monitor(c *Case) (viol []vh.Violation) {
-	cur := map[int]int{}     // address -> registered process
+	cur := map[int]int{}      // address -> registered process
 	removed := map[int]bool{} // processes whose unregistration has completed
 	sticky := map[int]bool{}
 	next := 0
